@@ -203,20 +203,15 @@ def run_one(scn, params, bounds, prefix, concrete=None, cov=False, want_log=Fals
 
 def _reset_library_globals():
     """Module-level state of the library that must not leak between executions."""
+    sched.reset_global_locks()
     m = sys.modules.get("more_executors._impl.futures.timeout")
     if m is not None:
         m.EXECUTOR_REF = None
-        m.LOCK.owner = None
     m = sys.modules.get("more_executors._impl.event")
     if m is not None:
         h = m.GLOBAL_HANDLER
         h.shutdown = False
         h.events = []
-    m = sys.modules.get("more_executors._impl.futures.base")
-    if m is not None:
-        lk = getattr(getattr(m.EXECUTOR, "_shutdown", None), "_lock", None)
-        if lk is not None and hasattr(lk, "owner"):
-            lk.owner = None
     for hook in _reset_hooks:
         hook()
 
@@ -284,7 +279,8 @@ def explore(item):
     scn = load_scenario(item["harness"], item["scenario"])
     params = item.get("params", {})
     bounds = item.get("bounds", {})
-    stack = [list(p) for p in item.get("prefixes", [[]])]
+    stack = [(list(p[0]), p[1]) if (len(p) == 2 and isinstance(p[0], list)) else (list(p), 0)
+             for p in item.get("prefixes", [[]])]
     budget = item.get("budget", 50)
     tbudget = item.get("time_budget", 20.0)
     out = {
@@ -299,7 +295,7 @@ def explore(item):
     n = 0
     seen_viol = set()
     while stack and n < budget and (_clock() - t0) < tbudget:
-        prefix = stack.pop()
+        prefix, _pre = stack.pop()
         cov = item.get("cov", False) and n == 0
         r = run_one(scn, params, bounds, prefix, cov=cov)
         n += 1
@@ -315,6 +311,8 @@ def explore(item):
         out["stuck"] += r.stuck
         if r.diverged:
             out["divergences"] += 1
+            if len(out["errors"]) < 3 and os.environ.get("VERIF_DEBUG_DIVERGE"):
+                out["errors"].append({"prefix": prefix, "error": "diverged"})
             continue
         if r.infeasible:
             out["infeasible"] += 1
@@ -332,8 +330,8 @@ def explore(item):
         lp = len(prefix)
         for i in range(len(r.trace) - 1, lp - 1, -1):
             d = r.trace[i]
-            for a in d.alts:
-                stack.append(dec[:i] + [a])
+            for (a, cost) in d.alts:
+                stack.append((dec[:i] + [a], d.pre + cost))
         if r.trace:
             out["max_preempt"] = max(out["max_preempt"], r.trace[-1].pre)
         for k, v in r.reached.items():
